@@ -107,6 +107,9 @@ type sysPlan struct {
 	Header   int        `json:"header_lines"`
 	Tail     int        `json:"tail"`
 	Read0    bool       `json:"read0"`
+	// Stages: the producer on stdin writes this many records, then pauses until the next "feed" event
+	// (one entry per pause; what is left after the last pause comes with the last feed)
+	Stages []int `json:"stages,omitempty"`
 }
 
 // ---------------------------------------------------------------------------
@@ -160,6 +163,20 @@ type sysRun struct {
 
 	tolerateBadOpts bool
 	sigKilled       bool
+	stageLines      []int // records written after stage k
+}
+
+// fedLines is the number of input records the stdin producer has written so far.
+func (r *sysRun) fedLines() int {
+	if r.in != nil && r.in.stage < len(r.stageLines) {
+		return r.stageLines[r.in.stage]
+	}
+	return len(r.lines)
+}
+
+// inputAtRest: everything written so far has been read by fzf.
+func (r *sysRun) inputAtRest() bool {
+	return r.in != nil && r.in.off >= r.in.limit()
 }
 
 func (p *sysPlan) baseArgs() []string {
@@ -369,6 +386,18 @@ func (r *sysRun) start() bool {
 	}
 	r.in = newSimStdin(c, data, plan.Reads, plan.GapsMs, -1)
 	r.in.holdOpen = plan.HoldOpen
+	if len(plan.Stages) > 0 && len(data) > 0 {
+		off, ln := 0, 0
+		for _, n := range plan.Stages {
+			n = clampInt(n, 0, len(r.lines)-ln)
+			for k := 0; k < n; k++ {
+				off += len(r.lines[ln]) + 1
+				ln++
+			}
+			r.in.gates = append(r.in.gates, off)
+			r.stageLines = append(r.stageLines, ln)
+		}
+	}
 	zsim.Stdin = r.in
 	args := plan.baseArgs()
 	opts, err := ParseOptions(false, args)
@@ -469,6 +498,11 @@ func (r *sysRun) user() {
 			r.tty.HangUp()
 			r.c.count("fault.tty_hangup", 1)
 			r.sim.Logf("tty hang-up")
+		case "feed":
+			if r.in.advance() {
+				r.c.count("fault.input_stage", 1)
+				r.sim.Logf("stdin producer writes up to record %d", r.fedLines())
+			}
 		case "settle":
 			r.userWait = true
 			<-r.resume
